@@ -79,7 +79,7 @@ Section Loops.
     = goA t1 t2.
   Proof.
     intros PL PR W1 W2 Hsc. induction t1 as [|x t1 IH]; intros d1 t2 d2 E1 E2 Ed fuel Hf;
-      (destruct fuel as [|fuel]; [cbn [length] in Hf; lia|]); cbn [arr_loop_w].
+      (destruct fuel as [|fuel]; [cbn [length] in Hf; lia|]); cbn [arr_loop_w]; unfold CMA_JSTEP.
     - (* the left array is exhausted *)
       rewrite app_nil_r in E1. subst d1.
       assert (Hlen : lenN l2 = lenN l1 + lenN t2) by (rewrite E2, lenN_app; unfold lenN; rewrite Ed; reflexivity).
@@ -183,7 +183,7 @@ Section LoopsObj.
       + rewrite app_nil_r in E2. subst d2. cbn [kws map obj_loop_w goO].
         assert (Hlen : lenN o1 = lenN o2 + lenN ((k1, x) :: t1)) by (rewrite E1, lenN_app; unfold lenN; rewrite Ed; reflexivity).
         rewrite lenN_cons in Hlen. replace (lenN o1 ?= lenN o2) with Gt by (symmetry; apply N.compare_gt_iff; lia). reflexivity.
-      + cbn [kws map fst obj_loop_w goO]. fold (kws t1). fold (kws t2).
+      + cbn [kws map fst obj_loop_w goO]. unfold CMO_LJSTEP2, CMO_RJSTEP2. fold (kws t1). fold (kws t2).
         assert (Hk1 : wf_size x = true /\ lenN k1 < 268435456).
         { unfold obj_ok in W1. rewrite E1 in W1. apply Forall_app in W1. destruct W1 as [_ W1]. inversion W1 as [|? ? Hh ?]. exact Hh. }
         assert (Hk2 : wf_size y = true /\ lenN k2 < 268435456).
@@ -296,9 +296,9 @@ Proof.
       destruct (wf_arr l2 Wy) as [Hall2 Hn2].
       assert (W2 : Forall (fun v => wf_size v = true) l2) by (eapply Forall_impl; [|exact Hall2]; intros v; apply wfb_size).
       change (CONTAINER_TAG =? NULL_TAG) with false. change (CONTAINER_TAG =? CONTAINER_TAG) with true. cbn [andb].
-      unfold compare_container_w. rewrite (rd_hdr_arr L l1 lo PL Hn1), (rd_hdr_arr R l2 ro PR Hn2). cbn [bind].
+      unfold compare_container_w, CMP_ARR_LSKIP, CMP_ARR_RSKIP, CMP_OBJ_LSKIP, CMP_OBJ_RSKIP. rewrite (rd_hdr_arr L l1 lo PL Hn1), (rd_hdr_arr R l2 ro PR Hn2). cbn [bind].
       destruct (arr_hdr_facts l1 Hn1) as (_ & T1 & L1). destruct (arr_hdr_facts l2 Hn2) as (_ & T2 & L2). rewrite T1, T2.
-      rewrite N.eqb_refl. cbn [andb]. unfold compare_array_w. rewrite L1, L2.
+      rewrite N.eqb_refl. cbn [andb]. unfold compare_array_w, CMA_LEN, CMA_JOFF, CMA_LVOFF, CMA_RVOFF. rewrite L1, L2.
       pose proof (arr_loop_entry L R f l1 l2 lo ro PL PR W1 W2) as AL.
       specialize (AL ltac:(intros x Hx y0 lo' ro' Hy P1 P2; rewrite Forall_forall in IH; apply (IH x Hx);
                            [rewrite Forall_forall in Hall1; apply Hall1; exact Hx|rewrite Forall_forall in Hall2; apply Hall2; exact Hy
@@ -309,7 +309,7 @@ Proof.
     + (* array / object *)
       destruct (obj_ok_of_wf o2 Wy) as [Ho2 Hn2].
       change (CONTAINER_TAG =? NULL_TAG) with false. change (CONTAINER_TAG =? CONTAINER_TAG) with true. cbn [andb].
-      unfold compare_container_w. rewrite (rd_hdr_arr L l1 lo PL Hn1), (rd_hdr_obj R o2 ro PR Hn2). cbn [bind].
+      unfold compare_container_w, CMP_ARR_LSKIP, CMP_ARR_RSKIP, CMP_OBJ_LSKIP, CMP_OBJ_RSKIP. rewrite (rd_hdr_arr L l1 lo PL Hn1), (rd_hdr_obj R o2 ro PR Hn2). cbn [bind].
       destruct (arr_hdr_facts l1 Hn1) as (_ & T1 & _). destruct (obj_hdr_facts o2 Hn2) as (_ & T2 & _). rewrite T1, T2. reflexivity.
   - (* objects *)
     destruct (obj_ok_of_wf o1 Wx) as [Ho1 Hn1].
@@ -317,15 +317,15 @@ Proof.
     + (* object / array *)
       destruct (wf_arr l2 Wy) as [_ Hn2].
       change (CONTAINER_TAG =? NULL_TAG) with false. change (CONTAINER_TAG =? CONTAINER_TAG) with true. cbn [andb].
-      unfold compare_container_w. rewrite (rd_hdr_obj L o1 lo PL Hn1), (rd_hdr_arr R l2 ro PR Hn2). cbn [bind].
+      unfold compare_container_w, CMP_ARR_LSKIP, CMP_ARR_RSKIP, CMP_OBJ_LSKIP, CMP_OBJ_RSKIP. rewrite (rd_hdr_obj L o1 lo PL Hn1), (rd_hdr_arr R l2 ro PR Hn2). cbn [bind].
       destruct (obj_hdr_facts o1 Hn1) as (_ & T1 & _). destruct (arr_hdr_facts l2 Hn2) as (_ & T2 & _). rewrite T1, T2. reflexivity.
     + (* object / object *)
       destruct (obj_ok_of_wf o2 Wy) as [Ho2 Hn2].
       change (CONTAINER_TAG =? NULL_TAG) with false. change (CONTAINER_TAG =? CONTAINER_TAG) with true. cbn [andb].
-      unfold compare_container_w. rewrite (rd_hdr_obj L o1 lo PL Hn1), (rd_hdr_obj R o2 ro PR Hn2). cbn [bind].
+      unfold compare_container_w, CMP_ARR_LSKIP, CMP_ARR_RSKIP, CMP_OBJ_LSKIP, CMP_OBJ_RSKIP. rewrite (rd_hdr_obj L o1 lo PL Hn1), (rd_hdr_obj R o2 ro PR Hn2). cbn [bind].
       destruct (obj_hdr_facts o1 Hn1) as (_ & T1 & L1). destruct (obj_hdr_facts o2 Hn2) as (_ & T2 & L2). rewrite T1, T2.
       change (OBJECT_CONTAINER_TAG =? ARRAY_CONTAINER_TAG) with false. rewrite N.eqb_refl. cbn [andb].
-      unfold compare_object_w. rewrite L1, L2. rewrite (rd_kws L o1 lo PL Ho1), (rd_kws R o2 ro PR Ho2). cbn [bind].
+      unfold compare_object_w, CMO_LJOFF, CMO_RJOFF, CMO_LJSTEP1, CMO_RJSTEP1, CMO_LKOFF, CMO_RKOFF, CMO_LVOFF, CMO_RVOFF. rewrite L1, L2, ?N.add_0_r, ?N.add_0_l. rewrite (rd_kws L o1 lo PL Ho1), (rd_kws R o2 ro PR Ho2). cbn [bind].
       rewrite (sum_je_len_kws o1 Ho1), (sum_je_len_kws o2 Ho2).
       destruct (wf_obj o1 Wx) as (Hall1 & _ & _). destruct (wf_obj o2 Wy) as (Hall2 & _ & _).
       destruct f as [|f'].
@@ -373,7 +373,7 @@ Proof.
   pose proof (wfb_size _ Wa) as Sa. pose proof (wfb_size _ Wb) as Sb.
   assert (Fuel : forall x, In x [a; b] -> (depth x <= S (length (enc a) + length (enc b)))%nat).
   { intros x [<-|[<-|[]]]; [pose proof (depth_le_len a); pose proof (enc_len_ge a)|pose proof (depth_le_len b); pose proof (enc_len_ge b)]; lia. }
-  unfold compare_b, compare_m.
+  unfold compare_b, compare_m, CPR_SC_LJOFF, CPR_SC_RJOFF, CPR_SC_LSKIP, CPR_SC_RSKIP, CPR_ARR_LSKIP, CPR_ARR_RSKIP, CPR_OBJ_LSKIP, CPR_OBJ_RSKIP, CPR_MIX_LJOFF, CPR_MIX_RJOFF.
   destruct (is_container a) eqn:Ca, (is_container b) eqn:Cb;
     unfold is_container in Ca, Cb; destruct (is_scalar a) eqn:Sca; try discriminate Ca; destruct (is_scalar b) eqn:Scb; try discriminate Cb; clear Ca Cb.
   - (* container / container *)
@@ -391,7 +391,7 @@ Proof.
       rewrite (rd_hdr_arr _ l1 0 PA Hn1), (rd_hdr_arr _ l2 0 PB Hn2). cbn [bind].
       destruct (arr_hdr_facts l1 Hn1) as (_ & T1 & L1). destruct (arr_hdr_facts l2 Hn2) as (_ & T2 & L2). rewrite T1, T2.
       change (ARRAY_CONTAINER_TAG =? SCALAR_CONTAINER_TAG) with false. rewrite N.eqb_refl. cbn [andb orb].
-      unfold compare_array_w. rewrite L1, L2.
+      unfold compare_array_w, CMA_LEN, CMA_JOFF, CMA_LVOFF, CMA_RVOFF. rewrite L1, L2.
       pose proof (arr_loop_entry (enc (VArr l1)) (enc (VArr l2)) (S F) l1 l2 0 0 PA PB W1 W2) as AL.
       specialize (AL ltac:(intros x Hx y0 lo' ro' Hy P1 P2; apply Elem;
                            [rewrite Forall_forall in Hall1; apply Hall1; exact Hx|rewrite Forall_forall in Hall2; apply Hall2; exact Hy
@@ -411,7 +411,7 @@ Proof.
       destruct (obj_hdr_facts o1 Hn1) as (_ & T1 & L1). destruct (obj_hdr_facts o2 Hn2) as (_ & T2 & L2). rewrite T1, T2.
       change (OBJECT_CONTAINER_TAG =? SCALAR_CONTAINER_TAG) with false. change (OBJECT_CONTAINER_TAG =? ARRAY_CONTAINER_TAG) with false.
       rewrite N.eqb_refl. cbn [andb orb].
-      unfold compare_object_w. rewrite L1, L2.
+      unfold compare_object_w, CMO_LJOFF, CMO_RJOFF, CMO_LJSTEP1, CMO_RJSTEP1, CMO_LKOFF, CMO_RKOFF, CMO_LVOFF, CMO_RVOFF. rewrite L1, L2, ?N.add_0_r, ?N.add_0_l.
       pose proof (rd_kws _ o1 0 PA Ho1) as K1. pose proof (rd_kws _ o2 0 PB Ho2) as K2. change (0 + 4) with 4 in K1, K2. rewrite K1, K2. cbn [bind].
       rewrite (sum_je_len_kws o1 Ho1), (sum_je_len_kws o2 Ho2).
       pose proof (obj_loop_entry (enc (VObj o1)) (enc (VObj o2)) F o1 o2 0 0 PA PB Ho1 Ho2) as OL.
